@@ -14,7 +14,7 @@ func init() {
 	Registry["C05"] = planC05
 }
 
-var strCands = []string{"", "a", "ab", "abc", "abcd", "abcde", "abcdef", "é", "éé", "ééé", "éééé", "b", "zb", "bz", "c", "A", "a1", "12a", "9", "aaa", "cab", "xyz"}
+var strCands = []string{"", "a", "ab", "abc", "abcd", "abcde", "abcdef", "é", "éé", "ééé", "éééé", "b", "zb", "bz", "c", "A", "a1", "12a", "9", "aaa", "cab", "xyz", "cd", "xy", "abz", "zcdz", "zxy", "tmp", "lost", "tmpfiles", "notlost", "abc-1", "123"}
 
 // numCands: every bound of every level and its neighbours on the spec's number line, the
 // base type's extremes and their neighbours, and fractions.
